@@ -160,6 +160,9 @@ func (mt *multiSwarm) LocalAddrs() (ret []Addr) {
 }
 
 func (mt *multiSwarm) Close() error {
+	// Close the hubs first: the receive and serve loops deliver into them from inside
+	// the inner swarms' callbacks, and closing an inner swarm may wait for those callbacks.
+	mt.tells.CloseWithError(p2p.ErrClosed)
 	var err error
 	for _, t := range mt.swarms {
 		if err2 := t.Close(); err2 != nil {
@@ -167,7 +170,6 @@ func (mt *multiSwarm) Close() error {
 			logctx.Errorln(mt.ctx, "closing swarms", err)
 		}
 	}
-	mt.tells.CloseWithError(p2p.ErrClosed)
 	return err
 }
 
